@@ -135,6 +135,12 @@ type runnablePipeline struct {
 	t                *tomb.Tomb
 	backoff          *backoff.Backoff
 	recoveryAttempts *atomic.Int64
+
+	// forceStopped is set by stopForceful. A force stop must end the pipeline
+	// for good even if the run was already failing with a transient error when
+	// it arrived: the tomb only keeps the first error, so without this mark the
+	// cleanup would see the transient error and restart the pipeline.
+	forceStopped atomic.Bool
 }
 
 // ConnectorService can fetch and create a connector instance, and report when
@@ -363,6 +369,7 @@ func (s *Service) stopForceful(ctx context.Context, rp *runnablePipeline) error 
 		Msg("force stopping pipeline")
 
 	// Creates a FatalError to prevent the pipeline from recovering.
+	rp.forceStopped.Store(true)
 	rp.t.Kill(cerrors.FatalError(pipeline.ErrForceStop))
 	for _, n := range rp.n {
 		if node, ok := n.(stream.ForceStoppableNode); ok {
@@ -967,6 +974,10 @@ func (s *Service) runPipeline(ctx context.Context, rp *runnablePipeline) error {
 				return err
 			}
 		default:
+			if rp.forceStopped.Load() && !cerrors.IsFatalError(err) {
+				// the run was already failing when it was force stopped
+				err = cerrors.FatalError(cerrors.Errorf("run was already failing (%v): %w", err, pipeline.ErrForceStop))
+			}
 			if cerrors.IsFatalError(err) {
 				// we use %+v to get the stack trace too
 				if err := s.pipelines.UpdateStatus(ctx, rp.pipeline.ID, pipeline.StatusDegraded, fmt.Sprintf("%+v", err)); err != nil {
